@@ -622,6 +622,13 @@ func runSeqOn(c *core.Ctx, cfg *SeqCfg, backend string, r *gen.Rng, transcript b
 		if nextAudit <= 0 && !d.failed {
 			d.Audit(lastOp)
 			nextAudit = r.Range(cfg.AuditEvery[0], cfg.AuditEvery[1])
+			total := 0
+			for _, mc := range d.m.Colls {
+				total += len(mc.Docs)
+			}
+			if total > 400 {
+				nextAudit *= 4 // audits rebuild the whole state: space them out on large databases
+			}
 		}
 	}
 	if !d.failed {
